@@ -130,7 +130,13 @@ T_CALLS = {
 _tg, _te = _thr.make(T_CALLS, ['geodepy/convert.py'], 'convert:psfandgridconv:threads', quick=['fwd_isg', 'inv_utm_north', 'inv_isg'], triple=('fwd_utm', 'fwd_isg', 'inv_isg'), parts=4)
 
 
-SUBCHECKS = [Sub('psf_gridconv', gen, ev_row, chunk=16, floor=1000, envs=24), Sub('threads', _tg, _te, chunk=1, floor=3, poison=False, fresh=True, timeout=3600)]
+from gpmc import callforms as _cf
+
+
+from gpmc import interp as _ip
+
+
+SUBCHECKS = [Sub('psf_gridconv', gen, ev_row, chunk=16, floor=1000, envs=24), Sub('threads', _tg, _te, chunk=1, floor=3, poison=False, fresh=True, timeout=3600), Sub('callforms', *_cf.make('C10', 'convert'), chunk=1, floor=1, guard=True), Sub('interpreter', *_ip.make('C10', 'convert'), chunk=1, floor=5, poison=False)]
 
 
 def bounds(tier, seed):
